@@ -305,6 +305,39 @@ func validateArgForms(c *common.Ctx, format string, recursive bool, atoms []stri
 	}
 }
 
+// stdinBoundary: standard input at and beyond the documented 10 MiB limit of the CLI, which is also the library's input
+// limit.  The verdict is the library's on the very bytes that were piped in: an input the library rejects (too large, or
+// broken behind the 10 MiB mark) must not come back as accepted because the CLI looked at a prefix of it.
+func stdinBoundary(c *common.Ctx, args []string, shape string) {
+	const limit = 10 * 1024 * 1024
+	head := "SELECT c1 FROM t1;"
+	var in string
+	switch shape {
+	case "at-limit":
+		in = head + strings.Repeat(" ", limit-len(head)-1) + "\n"
+	case "over-by-one":
+		in = head + strings.Repeat(" ", limit-len(head)) + "\n"
+	case "over-valid-tail":
+		in = head + strings.Repeat(" ", limit-len(head)-1) + "\nSELECT c2 FROM t2;\n"
+	case "over-broken-tail":
+		in = head + strings.Repeat(" ", limit-len(head)-1) + "\nSELEC c2 FROM;\n"
+	case "over-comment-tail":
+		in = head + " --" + strings.Repeat("x", limit-len(head)-4) + "\n'unterminated"
+	}
+	v := libVerdict(in, "")
+	d := fmt.Sprintf("gosqlx %s  with %d bytes on standard input (%s: a statement, padding up to the 10 MiB mark, then the tail); library verdict: %s\n", strings.Join(args, " "), len(in), shape, v)
+	c.Input(d)
+	sb := newSandbox()
+	defer sb.close()
+	r := sb.run(nil, &in, args...)
+	exitOracle(c, args[0], "stdin-boundary:"+shape, "stdin", v, r, d)
+	if len(args) > 2 && args[2] == "json" && v == reject && r.Exit != 0 {
+		// nothing more is asserted about the report of an oversized input
+	}
+	c.Outcome("stdin-boundary:" + v.String())
+	c.NonTrivial()
+}
+
 // outputFileReused: what a command writes to its output file must not depend on what the file held before (an
 // earlier, longer report; an earlier formatting result).  Every command x input channel that has an output-file option.
 func outputFileReused(c *common.Ctx, name string, args []string, stdin *string, files []file) {
@@ -393,6 +426,15 @@ func enumValidate(e *common.Enum) {
 		for _, spell := range []string{"plain", "dot", "sub-dotdot", "dot-sub-dotdot", "dotdot-base", "inner-dot", "double-slash"} {
 			format, spell := format, spell
 			do(e, "validate-paths|"+format+"|"+spell, func(c *common.Ctx) { validatePaths(c, format, spell) })
+		}
+	}
+	for _, args := range [][]string{{"validate"}, {"validate", "--output-format", "json"}, {"format"}, {"parse"}, {"lint"}} {
+		for _, shape := range []string{"at-limit", "over-by-one", "over-valid-tail", "over-broken-tail", "over-comment-tail"} {
+			args, shape := args, shape
+			if args[0] == "lint" && shape == "at-limit" {
+				continue // the linter's verdict on ten megabytes of blanks (trailing white space) is not the library parser's
+			}
+			do(e, "stdin-boundary|"+strings.Join(args, " ")+"|"+shape, func(c *common.Ctx) { stdinBoundary(c, args, shape) })
 		}
 	}
 	for _, format := range []string{"text", "json", "sarif"} {
